@@ -547,6 +547,9 @@ def r12_tent(run, fx, floors=True):
         try:
             cnt, bad = fnread.compare(b, params, grid, spec, valid)
         except fnread.Undecided as e:
+            if e.helper:
+                run.notes.append("%s: %s hands part of the decision to a helper (%s): not decided" % (rule, b.path, e))
+                continue
             run.fail(rule, "tent-shape:%s" % short, "%s is no longer a decision list over its parameters that this rule can read (%s): the region scalar is "
                      "not decided" % (b.path, e), "%s:%s" % (b.file, b.line))
             continue
